@@ -1,6 +1,7 @@
 package main
 
 import (
+	"time"
 	"bytes"
 	"context"
 	"encoding/json"
@@ -131,14 +132,15 @@ func traceFields(o opts) error {
 		_ = usedEmb
 		st := reflect.StructOf(sfs)
 		val := reflect.New(st) // *struct
-		prefix := pick(r, []string{"", "", "dev", "prod/app"})
+		// (the last two are the same prefix as "dev", written less tidily: names are joined with path.Join)
+		prefix := pick(r, []string{"", "", "dev", "prod/app", "dev/", "./dev"})
 		// the service: values per full name
 		svc := &mapSvc{vals: map[string][]byte{}}
 		join := func(n string) string {
 			if prefix == "" {
 				return n
 			}
-			return prefix + "/" + n
+			return strings.TrimSuffix(strings.TrimPrefix(prefix, "./"), "/") + "/" + n
 		}
 		for _, n := range append(append([]string{}, names...), "emb") {
 			switch r.Intn(8) {
@@ -238,7 +240,18 @@ func traceFields(o opts) error {
 					}
 				}
 				listedOut = append([]string(nil), listed...)
-				s, err := setec.NewStore(cx, setec.StoreConfig{Client: svc, Secrets: listed, Structs: []setec.Struct{{Value: arg, Prefix: prefix}}, PollInterval: -1, Logf: func(string, ...any) {}})
+				// every declared name is present at the service, so construction does not have to wait;
+				// the limit is there for a store that asks for other names than it should
+				cxNew, cancelNew := context.WithTimeout(cx, 3*time.Second)
+				s, err := setec.NewStore(cxNew, setec.StoreConfig{Client: svc, Secrets: listed, Structs: []setec.Struct{{Value: arg, Prefix: prefix}}, PollInterval: -1, Logf: func(string, ...any) {}})
+				cancelNew()
+				if err != nil && errors.Is(err, context.DeadlineExceeded) {
+					aerr = "xTIMEOUT"
+					if fs, e2 := setec.ParseFields(arg, prefix); e2 == nil {
+						namesOut = xlistT(fs.Secrets())
+					}
+					return
+				}
 				if err != nil {
 					if strings.Contains(err.Error(), "parse struct fields") {
 						perr = classifyParse(err)
@@ -371,46 +384,63 @@ func traceFields(o opts) error {
 			storeAfter = strings.Join(parts, ";")
 			store.Close()
 		}
-		// a pointer field whose UnmarshalBinary rejected the value: once the secret is repaired and
-		// refreshed, applying the same Fields again must fill it (a scenario of its own: fresh
-		// struct value, fresh store, a copy of the service)
+		// a second value of the same struct type, parsed and applied on its own: its fields are
+		// filled (not the first value's), and a pointer field whose UnmarshalBinary rejected the
+		// value is filled once the secret has been repaired and the same Fields applied again
+		// (a scenario of its own: fresh struct value, fresh store, a copy of the service)
 		if via == "apply" && perr == "-" && ptr == "1" {
-			for i, d := range descs {
-				if d.kind != "binptr" || !d.hasTag || strings.Contains(d.tag, ",") || d.tag == "" || i >= len(sfs) {
-					continue
-				}
-				full := join(d.tag)
-				if v, ok := svc.vals[full]; !ok || !bytes.HasPrefix(v, []byte("bad")) {
-					continue
-				}
-				svc2 := &mapSvc{vals: map[string][]byte{}}
-				for k, v := range svc.vals {
-					svc2.vals[k] = v
-				}
-				val2 := reflect.New(st)
-				cx := context.Background()
-				fs2, err := setec.ParseFields(val2.Interface(), prefix)
-				if err != nil {
+			svc2 := &mapSvc{vals: map[string][]byte{}}
+			for k, v := range svc.vals {
+				svc2.vals[k] = v
+			}
+			val2 := reflect.New(st)
+			cx := context.Background()
+			fs2, err1 := setec.ParseFields(val2.Interface(), prefix)
+			s2, err2 := setec.NewStore(cx, setec.StoreConfig{Client: svc2, AllowLookup: true, PollInterval: -1, Logf: func(string, ...any) {}})
+			if err1 == nil && err2 == nil {
+				fs2.Apply(cx, s2)
+				second = "none:ok"
+				for i, d := range descs {
+					if (d.kind != "binptr" && d.kind != "binval") || !d.hasTag || strings.Contains(d.tag, ",") || d.tag == "" || i >= len(sfs) {
+						continue
+					}
+					full := join(d.tag)
+					v, ok := svc2.vals[full]
+					if !ok {
+						continue
+					}
+					got := func() []byte {
+						if d.kind == "binval" {
+							return val2.Elem().Field(i).Interface().(BinT).Got
+						}
+						if p := val2.Elem().Field(i).Interface().(*BinT); p != nil {
+							return p.Got
+						}
+						return nil
+					}
+					if !bytes.HasPrefix(v, []byte("bad")) {
+						if string(got()) != string(v) {
+							second = d.fname + ":wrong"
+							break
+						}
+						continue
+					}
+					if d.kind != "binptr" {
+						continue
+					}
+					svc2.vals[full] = []byte("val-fixed")
+					svc2.vers = map[string]api.SecretVersion{full: 1}
+					s2.Refresh(cx)
+					if err := fs2.Apply(cx, s2); err != nil && strings.Contains(err.Error(), fmt.Sprintf("%q", d.fname)) {
+						second = d.fname + ":err"
+					} else if p := val2.Elem().Field(i).Interface().(*BinT); p == nil {
+						second = d.fname + ":nil"
+					} else if string(p.Got) != "val-fixed" {
+						second = d.fname + ":wrong"
+					}
 					break
-				}
-				s2, err := setec.NewStore(cx, setec.StoreConfig{Client: svc2, AllowLookup: true, PollInterval: -1, Logf: func(string, ...any) {}})
-				if err != nil {
-					break
-				}
-				fs2.Apply(cx, s2) // fails for this field
-				svc2.vals[full] = []byte("val-fixed")
-				svc2.vers = map[string]api.SecretVersion{full: 1}
-				s2.Refresh(cx)
-				second = d.fname + ":ok"
-				if err := fs2.Apply(cx, s2); err != nil && strings.Contains(err.Error(), fmt.Sprintf("%q", d.fname)) {
-					second = d.fname + ":err"
-				} else if p := val2.Elem().Field(i).Interface().(*BinT); p == nil {
-					second = d.fname + ":nil"
-				} else if string(p.Got) != "val-fixed" {
-					second = d.fname + ":wrong"
 				}
 				s2.Close()
-				break
 			}
 		}
 		var svcNames []string
